@@ -275,7 +275,11 @@ func (i *IPC) ProxyAnswers(arg messages.Arg, response *[]byte) error {
 	*response = b
 
 	if success {
-		snowflake.answerChannel <- answer
+		select {
+		case snowflake.answerChannel <- answer:
+		default:
+			// An answer for this snowflake is already waiting to be picked up.
+		}
 	}
 
 	return nil
